@@ -18,6 +18,7 @@ Oracle : every way returns a module equal to loads(label text alone); with the
 """
 import io
 import os
+import random
 import pathlib
 import shutil
 
@@ -74,8 +75,41 @@ def workdir():
 
 @st.composite
 def labels(draw):
-    """ASCII label text that ends with the END keyword (no delimiter)."""
-    src = draw(st.sampled_from(["enc", "enc", "gen", "utf8"]))
+    """Label text that ends with the END keyword (no delimiter); one in six has its
+    line ends rewritten to CR LF or to bare CR (how the same label looks after a trip
+    through another operating system)."""
+    t = draw(labels0())
+    k = draw(st.integers(0, 11))
+    if k == 0:
+        t = t.replace("\r\n", "\n").replace("\n", "\r\n")
+    elif k == 1:
+        t = t.replace("\r\n", "\n").replace("\n", "\r")
+    elif k == 2:
+        # mixed: some line ends are bare CR, others LF
+        rng = random.Random(draw(st.integers(0, 2 ** 32)))
+        t = "".join("\r" if (c == "\n" and rng.random() < 0.5) else c
+                    for c in t.replace("\r\n", "\n"))
+    return t
+
+
+@st.composite
+def labels0(draw):
+    src = draw(st.sampled_from(["enc", "enc", "gen", "utf8", "commented"]))
+    if src == "commented":
+        # the default grammar's comments, '#' to the end of the line among them
+        doc = draw(gt.documents("default", min_statements=1))
+        toks = list(doc["tokens"])
+        for i, tk in enumerate(toks):
+            if tk[1] == "end":
+                toks = toks[:i]
+                break
+        doc2 = dict(tokens=toks + [gt.T("END", "end")], expected=None, tail="")
+        t = gt.seeded_layout(doc2, "default", draw(st.integers(0, 2 ** 32)), "full")
+        k = t.upper().rfind("END")
+        t = t[:k + 3]
+        if not t.isascii() or not t.upper().endswith("END") or "#" not in t:
+            t = "a = 1 # one\nb = 2 # two -\nc = 3\nEND"
+        return t
     if src == "utf8":
         # a UTF-8 label with characters beyond ASCII (units like the micro sign,
         # names of people and places in strings)
@@ -154,6 +188,27 @@ def load_cases(draw, maxrun):
         head = label.encode("utf-8") + b"\n"
         if target > len(head):
             data = head + b" " * (target - len(head)) + b"\xff\xfe" + tail
+    # long UTF-8 label class: a run of multi-byte characters (in a string, a comment or
+    # a '#' comment) crosses one or two 8192-byte block boundaries at every possible
+    # alignment, END lies beyond them, and the first undecodable byte comes later
+    if draw(st.integers(0, 5)) == 0:
+        ch = draw(st.sampled_from(["\u00e9", "\u4e2d", "\U0001F600", "\u00b5"]))
+        r = draw(st.integers(0, 4))
+        nblocks = draw(st.integers(1, 2))
+        n = (8192 * nblocks) // len(ch.encode("utf-8")) + draw(st.integers(1, 40))
+        shape = draw(st.sampled_from(["quoted", "comment", "hash", "units"]))
+        run = "x" * r + ch * n
+        if shape == "quoted":
+            label = f'a = 1\nnote = "{run}"\nb = 2\nEND'
+        elif shape == "comment":
+            label = f"a = 1\n/* {run} */\nb = 2\nEND"
+        elif shape == "hash":
+            label = f"a = 1\n # {run}\nb = 2\nEND"
+        else:
+            label = f"a = 1 <{run}>\nb = 2\nEND"
+        filler = b" " * draw(st.sampled_from([0, 1, 5, 100, 8000, 8192, 9000]))
+        data = label.encode("utf-8") + b"\n" + filler + \
+            draw(st.sampled_from([b"\xff", b"\xff\xfe\x00", b"\x80", b"\xc3"])) + tail
     return dict(label=label, data=data.hex() if len(data) < 4000 else None,
                 _data=data)
 
@@ -164,12 +219,17 @@ def load_all_ways(label, data):
     path = os.path.join(d, "label.img")
     with open(path, "wb") as f:
         f.write(data)
+    lf0 = counting_lexer()
     try:
-        want_m = pvl.loads(label, lexer_fn=counting_lexer())
+        want_m = pvl.loads(label, lexer_fn=lf0)
     except BaseException as e:
         return ("skip", f"label alone does not load: {type(e).__name__}")
     want = nm.canon(want_m)
     end_pos = len(label) - 3
+    if lf0.stats["maxpos"] != end_pos:
+        # the final END is not read as the END statement (it sits in a '#' comment
+        # that a bare CR does not end, say): what follows it is then part of the label
+        return ("skip", "the label's last word is not its END statement")
     try:
         whole = data.decode("utf-8")
     except UnicodeDecodeError:
@@ -491,6 +551,36 @@ def random_strict_loads(acc, n, seed, maxrun):
         shutil.rmtree(workdir(), ignore_errors=True)
 
 
+FIXED_LABELS = [
+    "a = 1 # c\rb = 2\nEND", "a = 1\r# comment\rb = 2\nc = 3\nEND",
+    "a = \"x\ry\"\r\nb = 'p\rq'\rEND", "a = 1 # c -\rb = 2\nEND", "a = 1\rb = 2\rEND",
+    "a = 1\r\nb = (1,\r\n 2)\r\nEND", "a = x-\rb = 2\nEND", "a = \"l1\r\nl2\"\nEND",
+    "/* c\rd */ a = 1\rEND", "a = 1 <m\rs>\nEND", "a = 1\n\rEND", "a = 1\x0b\x0cb = 2\x0cEND",
+    "a = \"caf\u00e9\"\rEND", "note = \"a -\r   b\"\rEND",
+]
+FIXED_TAILS = [b"", b"\n", b"\r", b"\n\xff", b"\r\nbinary\x00\xfe", b" \xfe", b"\r\xc3"]
+
+
+def fixed_loads(acc):
+    """Hand-written labels with bare CR, CR LF and mixed line ends (in comments, strings,
+    units and between statements) x tails x every way of handing the data over."""
+    try:
+        for label in FIXED_LABELS:
+            for tail in FIXED_TAILS:
+                data = label.encode("utf-8") + tail
+                r = load_all_ways(label, data)
+                if r is not None and r[0] == "skip":
+                    acc.event("fixed:skipped-label")
+                    continue
+                acc.event("fixed:labels-x-tails")
+                acc.case(key=repr(("fixed", label, tail)), nontrivial=len(tail) > 1,
+                         n=len(WAYS))
+                if r is not None:
+                    acc.fail(r[0], dict(kind="load", label=label, data=data.hex()), r[1])
+    finally:
+        shutil.rmtree(workdir(), ignore_errors=True)
+
+
 def shards(tier, seed):
     n = 160 if tier == "quick" else 1200
     maxrun = 40000 if tier == "quick" else 1000000
@@ -501,6 +591,7 @@ def shards(tier, seed):
     out += [("random_strict_loads", dict(n=n, seed=seed * 1000 + 70 + j,
                                          maxrun=min(maxrun, 100000)))
             for j in range(4)]
+    out.append(("fixed_loads", {}))
     return out
 
 
